@@ -1117,3 +1117,15 @@ pub proof fn lemma_rt_frag_bits(bytes: Seq<u8>, pos: int, limit: int, bs: Seq<bo
         assert(head + tail =~= bs);
     }
 }
+
+// ===== type-level rules (X.691 12, 13, 14) as used by the Writer API =====
+
+/// 13: INTEGER with optional bounds and extension marker (inside the profile: both bounds or none)
+pub open spec fn x691_integer(min: Option<i64>, max: Option<i64>, ext: bool, v: i64) -> Seq<bool> {
+    let lo = match min { Some(x) => x, None => 0i64 };
+    let hi = match max { Some(x) => x, None => i64::MAX };
+    if ext {
+        if v < lo || v > hi { seq![true] + x691_uwn(v) } else { seq![false] + x691_cwn(lo as int, hi as int, v as int) }
+    } else if min is None && max is None { x691_uwn(v) }
+    else { x691_cwn(lo as int, hi as int, v as int) }
+}
